@@ -134,7 +134,7 @@ def in_units(node, u):
     return out
 
 
-def gen_routine(rng, dt, n=None, fns=None, depth=None, shape=None):
+def _gen_routine(rng, dt, n=None, fns=None, depth=None, shape=None):
     """A sub-expression that is the *result of a cola routine* applied to a well-conditioned argument (DESIGN 4.25): lazy
     inverses and pseudo-inverses, matrix functions, Cholesky factors, products of plu / svd factors."""
     n = int(rng.integers(1, 6)) if n is None else n
@@ -173,7 +173,7 @@ def direct_only(node):
     return out
 
 
-def gen_routine_directed(rng, dt, n=None):
+def _gen_routine_directed(rng, dt, n=None):
     """Routine results over *structured* arguments and over other routine results (each inverse rule returns its own kind of
     lazy object: TriangularInv, permutation, factor-wise Kronecker / BlockDiag / Product of inverses, ...)."""
     n = int(rng.integers(1, 6)) if n is None else n
@@ -218,3 +218,22 @@ def gen_routine_directed(rng, dt, n=None):
     else:  # the triangular factors plu hands out, inverted one by one:  inv(U) @ inv(L) @ P^T  (as a product of routine results)
         arg = gen_leaf(rng, n, dt, ["Dense"])
     return {"k": "Routine", "fn": "inv", "alg": alg, "arg": arg}
+
+
+def no_identity(node):
+    """The same tree with Identity leaves replaced by a Diagonal of ones.  (Routine results of an Identity are Identity objects
+    again - inv(I), pow(I, 2), sqrt(I) - and a product built with @ drops Identity factors together with their dtype: the
+    recorded C01 finding, which the clean workloads keep out by pinning the dtype of *literal* Identity leaves only.)"""
+    if not isinstance(node, dict):
+        return node
+    if node.get("k") == "Identity":
+        return {"k": "Annot", "name": "PSD", "arg": {"k": "Diagonal", "n": node["n"], "dt": node["dt"], "vals": [1.0] * node["n"]}}
+    return {k: ([no_identity(c) for c in v] if k in ("args", "head", "tail") else (no_identity(v) if k in ("arg", "other") else v)) for k, v in node.items()}
+
+
+def gen_routine(rng, dt, n=None, fns=None, depth=None, shape=None):
+    return no_identity(_gen_routine(rng, dt, n, fns, depth, shape))
+
+
+def gen_routine_directed(rng, dt, n=None):
+    return no_identity(_gen_routine_directed(rng, dt, n))
